@@ -581,9 +581,6 @@ class C18(Engine):
                         'thread': op['thread'] % n_threads,
                         'got': canon_outcome(got)[:400],
                         'expected': canon_outcome(expected[index])[:400]})
-            elif tick_delta.get(index) is not None and n_threads == 1 \
-                    and tick_delta[index] != ref_ticks[index]:
-                result.stats['probe-tick-count-differs'] += 1
 
         # -- post state --------------------------------------------------------
         outcome = world.parse(text)
